@@ -82,6 +82,9 @@ def gen_graph(r, und, connected=False, weighted=None):
             w = weighted
         if w:
             Wt = r.randint(1, 10, size=(n, n)).astype(float)
+            if not connected and r.rand() < 0.3:
+                Wt = Wt * r.choice([-1, 1], size=(n, n))   # presence = nonzero: signed weights (not for the _connected routines,
+                fam = str(fam) + '+signed'                  # whose tests accumulate PN += P and are modelled on the support)
             if und:
                 Wt = np.triu(Wt, 1); Wt = Wt + Wt.T
             A = A * Wt
